@@ -111,13 +111,21 @@ def gen_plain_case(rng, tier, k, final_full=False, allow_skip=False, nmax=None):
     bnet = common.g_mixed(rng, nmax=nmax)
     mm = rng.choice([100000] * 6 + [1, 2, 3, 4])
     nops = rng.randint(1, 8 if tier == "quick" else 16)
-    return {"bnet": bnet, "max_motifs": mm, "ops": gen_ops(rng, nops, allow_skip=allow_skip),
+    case = {"bnet": bnet, "max_motifs": mm, "ops": gen_ops(rng, nops, allow_skip=allow_skip),
             "final_full": final_full}
+    if rng.random() < 0.15:
+        # variables declared in a non-alphabetical order, the diagram pickled somewhere in the history
+        case["order"] = [rng.randrange(64) for _ in range(8)]
+        if rng.random() < 0.6:
+            case["ops"].insert(rng.randrange(len(case["ops"]) + 1), ["pickle"])
+    return case
 
 
 def make_sd(case):
     from biobalm import SuccessionDiagram
 
+    if case.get("order"):
+        return make_sd_ordered(case)
     cfg = SuccessionDiagram.default_config()
     cfg["max_motifs_per_node"] = case.get("max_motifs", 100000)
     for k, v in case.get("cfg", {}).items():
@@ -146,12 +154,12 @@ def make_sd_ordered(case):
     from biobalm import SuccessionDiagram
     from biodivine_aeon import BooleanNetwork
 
-    if not case.get("order"):
-        return make_sd(case)
     cfg = SuccessionDiagram.default_config()
     cfg["max_motifs_per_node"] = case.get("max_motifs", 100000)
     for k, v in case.get("cfg", {}).items():
         cfg[k] = v
+    if not case.get("order"):
+        return SuccessionDiagram.from_rules(case["bnet"], config=cfg)
     bn = BooleanNetwork.from_bnet(case["bnet"])
     names = bn.variable_names()
     order = [names[i % len(names)] for i in case["order"]]
